@@ -38,6 +38,7 @@ var KeyVocab = map[string][]string{
 	"int8":    {"-128", "-1", "1", "127"},
 	"uint16":  {"1", "2", "65535", "300"},
 	"boolean": {"true", "false"},
+	"binary":  {"AQID", "/w==", "+/8=", "aGk="},
 }
 
 type Params struct {
